@@ -371,6 +371,13 @@ func (db *DB) Merge() error {
 			}
 		}
 
+		if len(pendingMergeEntries) == 0 && db.ActiveFile != nil && db.ActiveFile.fileID == int64(pendingMergeFId) {
+			// nothing of this file survives and nothing was rewritten since, so it is still the file
+			// that later commits append to: removing it would send them into an unlinked file
+			f.rwManager.Close()
+			continue
+		}
+
 		if err := db.reWriteData(pendingMergeEntries); err != nil {
 			f.rwManager.Close()
 			return err
